@@ -6,7 +6,7 @@ from . import common as K
 LEVEL = 'other'
 EXPLANATION = ('Proved on generic operands (contracts/inverse_c.py): the real bodies of codegen_outerexp/outersin/outercos return sum_k x^(wedge k)/k! (all / odd / even k) as polynomial identities over Q for operands of every single grade >= 1 and their sum, d <= 4 (5 in the thorough tier).  Proved (structure, via the operator contracts): codegen_outerexp builds term j as (term j-1 ^ x) with coefficients divided by j '
                '(= x^(wedge j)/j!), for j <= d, dropping a term only if it is empty; outersin/outercos sum the odd/even terms, outertan = '
-               'outersin / outercos; MultiVector.__pow__ is the repeated geometric product, of the inverse for negative powers, the scalar 1 for '
+               'outersin / outercos; MultiVector.__pow__ is the repeated geometric product (for every integer exponent, by loop invariant: exactly |n| factors), of the inverse for negative powers, the scalar 1 for '
                '0 and sqrt for 0.5; norm() = sqrt(normsq()), normalized() = x / norm(); codegen_sqrt: operator tree of a, bI = x - a, normS = (a*a - bI*bI).e, result c + bI*c2_inv, and the two dependency texts parsed and evaluated (c^2 == (a + sqrt(normS))/2, c2_inv == 1/(2c)).  MultiVector.exp: every branch of the type / sign dispatch '
                '(python number with s > 0, == 0, < 0; sympy expression; any other coefficient type; empty square; user-supplied functions) returns '
                'a tree that *evaluates* (uninterpreted Sqrt/Sin/Cos/Sinh/Cosh, numpy sinc(t) = sin(pi t)/(pi t)) to cosh(sqrt s) + x sinh(sqrt s)/sqrt s, '
